@@ -374,9 +374,13 @@ impl StorageEngine {
         
         match shard_guard.data.get(key) {
             Some(stored_value) if !stored_value.is_expired() => {
+                // Copy first, then read the clock: the caller turns the remaining time into
+                // an absolute deadline right away, and copying a large value takes time
+                // that would otherwise be added to the deadline.
+                let value = stored_value.value.clone();
                 let ttl = stored_value.metadata.expires_at
                     .map(|expires_at| expires_at.saturating_duration_since(Instant::now()));
-                Ok(Some((stored_value.value.clone(), ttl)))
+                Ok(Some((value, ttl)))
             }
             _ => Ok(None),
         }
